@@ -423,6 +423,112 @@ def diff(a):
     return ndarray([y - x for x, y in zip(xs, xs[1:])], None)
 
 
+# ------------------------------------------------------------------ further common entry points (not used by the pinned tree;
+# present so that a changed tree which reaches for them is still analysed instead of ending in a harness error)
+def asarray(x, dtype=None):
+    return x if isinstance(x, ndarray) and dtype is None else array(x, dtype)
+
+
+def where(cond, a, b):
+    n = len(cond._a)
+    av = a._a if isinstance(a, ndarray) else [a] * n
+    bv = b._a if isinstance(b, ndarray) else [b] * n
+    return ndarray([(x if c else y) for c, x, y in zip(cond._a, av, bv)], None)
+
+
+def dot(a, b):
+    s = 0.0
+    for x, y in zip(a._a, b._a):
+        s = s + _num(x) * _num(y)
+    return s
+
+
+def any(x):  # noqa: A001
+    if isinstance(x, ndarray):
+        for v in x._a:
+            if v:
+                return True
+        return False
+    return bool(x)
+
+
+def isinf(q):
+    if not isinstance(q, ndarray):
+        return isinstance(q, float) and math.isinf(q)
+    return ndarray([isinstance(x, float) and math.isinf(x) for x in q._a], None)
+
+
+def logical_not(a, out=None):
+    return bitwise_not(a, out)
+
+
+def logical_and(a, b, out=None):
+    return bitwise_and(a, b, out)
+
+
+def logical_or(a, b, out=None):
+    return bitwise_or(a, b, out)
+
+
+def absolute(q, out=None):
+    return _out([(-x if x < 0 else x) for x in q._a], out)
+
+
+abs = absolute  # noqa: A001
+
+
+def _elementwise2(op):
+    def f(a, b, out=None):
+        n = len(a._a) if isinstance(a, ndarray) else len(b._a)
+        av = a._a if isinstance(a, ndarray) else [a] * n
+        bv = b._a if isinstance(b, ndarray) else [b] * n
+        return _out([op(x, y) for x, y in zip(av, bv)], out)
+
+    return f
+
+
+minimum = _elementwise2(lambda x, y: nan if (_isnan(x) or _isnan(y)) else (y if y < x else x))
+maximum = _elementwise2(lambda x, y: nan if (_isnan(x) or _isnan(y)) else (y if y > x else x))
+add = _elementwise2(lambda x, y: _num(x) + _num(y))
+greater = _cmp(lambda x, y: x > y)
+less_equal = _cmp(lambda x, y: x <= y)
+
+
+def clip(q, lo, hi, out=None):
+    return _out([(lo if x < lo else (hi if x > hi else x)) for x in q._a], out)
+
+
+def zeros_like(a, dtype=None):
+    return ndarray([False if dtype is bool else 0.0] * len(a._a), None)
+
+
+def ones_like(a, dtype=None):
+    return ndarray([1.0] * len(a._a), None)
+
+
+def count_nonzero(a):
+    c = 0
+    for v in a._a:
+        if v:
+            c += 1
+    return c
+
+
+def nan_to_num(q, nan=0.0):  # noqa: A002
+    return ndarray([(nan if _isnan(x) else x) for x in q._a], None)
+
+
+def array_equal(a, b):
+    av = a._a if isinstance(a, ndarray) else list(a)
+    bv = b._a if isinstance(b, ndarray) else list(b)
+    if len(av) != len(bv):
+        return False
+    for x, y in zip(av, bv):
+        if not (x == y):
+            return False
+    return True
+
+
 import builtins as _b  # noqa: E402
 
 builtins_range = _b.range
